@@ -58,6 +58,8 @@ func vpmExpandEnv(s string) string {
 
 //vp:property C14
 //vp:set k 3 4
+//vp:set maxpaths 200000 1500000
+//vp:set budget 300 1500
 //vp:bounds K requests (quick 3, thorough 4) over three session identifiers (two of them differing by a trailing blank only); each request is one of {negotiate, authenticate for a 2-character user name with symbolic characters and with or without a domain name, undecodable base64, a non-NTLM byte string, empty message}; user database {"ab","ef": non-empty passwords, "cd": empty password, "gh": a password with a "$" in it}; the client's proof was computed from an arbitrary password of {empty, ab's, ef's, another, gh's} under the name it sends or under ab's/ef's name, against the challenge of an arbitrary server session created so far or against the empty challenge; the library may panic inside ProcessAuthenticateMessage, before or after it verified the proof; cached contexts may or may not expire between requests
 //vp:assume go-ntlm's ProcessAuthenticateMessage compares against the response key it derived at the session's FIRST authenticate message (fetchResponseKeys caches it) and this session's challenge; go-cache contract
 //vp:reach authenticated challenged refused
